@@ -294,6 +294,7 @@ def rule_slitherlink(h: int, w: int, problem: List[List[int]]) -> Callable[[Sequ
                         return False
         return True
 
+    ok.arity = len(edges)  # type: ignore[attr-defined]
     return ok
 
 
@@ -341,6 +342,7 @@ def rule_masyu(h: int, w: int, problem: List[List[int]]) -> Callable[[Sequence[b
                         return False
         return True
 
+    ok.arity = len(edges)  # type: ignore[attr-defined]
     return ok
 
 
@@ -425,6 +427,7 @@ def rule_yajilin(h: int, w: int, problem: List[List[str]]) -> Callable[[Sequence
                 return False  # every other cell is either black or on the loop, not both
         return True
 
+    ok.arity = len(edges) + h * w  # type: ignore[attr-defined]
     return ok
 
 
@@ -638,6 +641,7 @@ def rule_geradeweg(h: int, w: int, problem: List[List[int]]) -> Callable[[Sequen
                     return False
         return True
 
+    ok.arity = len(edges)  # type: ignore[attr-defined]
     return ok
 
 
@@ -721,6 +725,7 @@ def rule_fivecells(h: int, w: int, problem: List[List[int]]) -> Callable[[Sequen
                     return False
         return True
 
+    ok.arity = len(pairs)  # type: ignore[attr-defined]
     return ok
 
 
@@ -812,6 +817,7 @@ def rule_castle_wall(h: int, w: int, arrow: List[List[str]], inside: List[List[O
                     return False
         return True
 
+    ok.arity = len(edges)  # type: ignore[attr-defined]
     return ok
 
 
@@ -883,6 +889,7 @@ def rule_firefly(h: int, w: int, problem: List[List[str]]) -> Callable[[Sequence
                 return False
         return True
 
+    ok.arity = len(edges)  # type: ignore[attr-defined]
     return ok
 
 
@@ -898,6 +905,7 @@ def rule_simpleloop(h: int, w: int, blocked: List[List[int]], pivot: Cell) -> Ca
             return False
         return {c for e, b in zip(edges, pat) if b for c in e} == free
 
+    ok.arity = len(edges)  # type: ignore[attr-defined]
     return ok
 
 
@@ -1054,6 +1062,7 @@ def rule_slalom(h: int, w: int, origin: Cell, is_black: List[List[bool]], gates:
                 return True
         return False
 
+    ok.arity = len(edges)  # type: ignore[attr-defined]
     return ok
 
 
@@ -1424,7 +1433,8 @@ def instances(tier: str) -> List[Tuple[str, tuple, dict, Callable[..., Callable[
           ("view", (1, 3, [[-1, -1, -1]]), {}, rule_view),
           ("view", (3, 1, [[-1], [-1], [-1]]), {}, rule_view),
           ("view", (1, 4, [[-1, -1, 2, -1]]), {}, rule_view),
-          ("view", (4, 1, [[-1], [2], [-1], [-1]]), {}, rule_view)]
+          ("view", (4, 1, [[-1], [2], [-1], [-1]]), {}, rule_view),
+          ("view", (2, 2, [[0, -1], [-1, -1]]), {}, rule_view)]   # a clue 0: the cell carries a number and sees nothing
     # fivecells
     I += [("fivecells", (1, 5, [[-1, 2, -1, -1, -1]]), {}, rule_fivecells),
           ("fivecells", (1, 5, [[-1, 3, -1, -1, -1]]), {}, rule_fivecells),                         # a clue no division can meet
@@ -1691,6 +1701,11 @@ def _job(args) -> Tuple[str, str, int]:
         if getattr(rule, "custom", False):
             return rule(a, kw, ids, posted, ext, label)
         ok = rule(*a, **kw)
+        want_n = getattr(ok, "arity", None)
+        if want_n is None and getattr(ok, "domains", None) is not None:
+            want_n = len(ok.domains)
+        if want_n is not None and want_n != len(ids):
+            return "bad", f"{label}: the answer consists of {len(ids)} variables, the problem has {want_n} answer positions", 0
         doms = [posted.domains()[i] for i in ids]
         solver_doms = list(doms)
         own = [set(d) for d in doms]
